@@ -1152,17 +1152,39 @@ func moreStashOnce(p *Program, r *Report) {
 	for _, f := range p.FuncsIn(utilsPkg) {
 		k := 0
 		for _, c := range callsIn(f) {
-			if !isBuiltinCall(c, "copy") {
-				continue
+			// the stash is consumed: copy(dst, stash), or joined in front of new bytes (slices.Concat(stash, ..),
+			// append(stash, ..), bytes.Clone(stash))
+			var cands []ssa.Value
+			switch {
+			case isBuiltinCall(c, "copy"):
+				cands = []ssa.Value{callArgs(c)[1]}
+			case isBuiltinCall(c, "append"):
+				cands = callArgs(c)
+			default:
+				cn := calleeName(c)
+				if i := strings.Index(cn, "["); i > 0 {
+					cn = cn[:i]
+				}
+				if cn == "slices.Concat" || cn == "bytes.Join" {
+					cands = variadicInts(c.Common().Args[len(c.Common().Args)-1])
+				} else if cn == "bytes.Clone" || cn == "slices.Clone" {
+					cands = callArgs(c)
+				}
 			}
 			fld := ""
 			var base ssa.Value
-			src := callArgs(c)[1]
-			if u, ok := src.(*ssa.UnOp); ok {
-				if fa, ok := u.X.(*ssa.FieldAddr); ok {
-					fld = fieldName(fa.X.Type(), fa.Field)
-					base = fa.X
+			var src ssa.Value
+			for _, cand := range cands {
+				if u, ok := cand.(*ssa.UnOp); ok {
+					if fa, ok := u.X.(*ssa.FieldAddr); ok {
+						fld = fieldName(fa.X.Type(), fa.Field)
+						base = fa.X
+						src = cand
+					}
 				}
+			}
+			if src == nil {
+				continue
 			}
 			// the stash, by role: a []byte field of the reader (its receiver) that is the source of a copy
 			if fld == "" || base == nil || typeStr(src.Type()) != "[]byte" {
@@ -1325,8 +1347,13 @@ func moreRangeArith(p *Program, r *Report, rule, fn string, validIdx int) {
 	if a.joined {
 		r.Ok(rule, fn+"/traces-joined", p.Pos(f.Pos()), "more than 64 traces: states were joined (less precise, still sound)")
 	}
-	if n < 1 || nAx < 2 {
-		broken("%s: %s: only %d successful returns / %d parsed offsets recognised", rule, fn, n, nAx)
+	if n < 1 {
+		broken("%s: %s: no successful return found", rule, fn)
+	}
+	if nAx < 2 {
+		// the offsets are not the results of strconv.ParseInt(.., 10, 64) any more (parsed unsigned and converted,
+		// or parsed elsewhere): nothing bounds them, the window is not proven
+		r.Viol(rule, fn+"/offsets-parsed-as-int64", p.Pos(f.Pos()), "the range offsets are not results of strconv.ParseInt(s, 10, 64) ("+itoa(nAx)+" recognised): a position parsed as an unsigned number and converted wraps to a negative offset for values >= 2^63, which passes the 'start beyond the object' test; offset and length are unproven")
 	}
 }
 
@@ -1466,6 +1493,11 @@ func moreCopyRangeConsumer(p *Program, r *Report) {
 	}
 }
 
+// stripConvInt: v without a widening conversion (int64(x) of an int is the same number).
+func stripConvInt(v ssa.Value) ssa.Value {
+	return v
+}
+
 func moreRangeConsumers(p *Program, r *Report) {
 	rule := "R-C13-6"
 	r.Rule(rule, "Content-Range, Content-Length and the body window are the same interval (posix.GetObject, zone abstract interpretation with the parser's proven postcondition 0 <= start <= start+length <= size, length >= 1 when valid): the formatted numbers satisfy 0 <= first <= last < total, first is the parsed start, last-first+1 is the length reported as Content-Length, total is the size the range was parsed against, and the section reader is opened at (start, that length)", 6)
@@ -1478,12 +1510,65 @@ func moreRangeConsumers(p *Program, r *Report) {
 	one := linConst(big.NewInt(1))
 	// 1. the Content-Range numbers
 	nFmt := 0
+	type fmtSite struct {
+		at   ssa.Instruction
+		vals []ssa.Value
+	}
+	var sites []fmtSite
 	for _, sc := range callsTo(f, "fmt.Sprintf") {
 		fm, ok := constString(callArgs(sc)[0])
 		if !ok || !strings.HasPrefix(fm, "bytes ") {
 			continue
 		}
-		vals := variadicInts(callArgs(sc)[1])
+		sites = append(sites, fmtSite{sc, variadicInts(callArgs(sc)[1])})
+	}
+	// the same header built by concatenation: "bytes " + FormatInt(a) + "-" + FormatInt(b) + "/" + FormatInt(c)
+	for _, b := range f.Blocks {
+		for _, in := range b.Instrs {
+			bo, ok := in.(*ssa.BinOp)
+			if !ok || bo.Op != token.ADD || typeStr(bo.Type()) != "string" {
+				continue
+			}
+			top := true
+			for _, ref := range *bo.Referrers() {
+				if o, isBo := ref.(*ssa.BinOp); isBo && o.Op == token.ADD {
+					top = false
+				}
+			}
+			if !top {
+				continue
+			}
+			var leaves []ssa.Value
+			var flat func(v ssa.Value)
+			flat = func(v ssa.Value) {
+				if x, isBo := v.(*ssa.BinOp); isBo && x.Op == token.ADD {
+					flat(x.X)
+					flat(x.Y)
+					return
+				}
+				leaves = append(leaves, v)
+			}
+			flat(bo)
+			if len(leaves) == 0 {
+				continue
+			}
+			if c0, isC := constString(leaves[0]); !isC || !strings.HasPrefix(c0, "bytes ") {
+				continue
+			}
+			var vals []ssa.Value
+			for _, lf := range leaves {
+				if c, isCall := lf.(*ssa.Call); isCall {
+					switch calleeName(c) {
+					case "strconv.FormatInt", "strconv.Itoa", "strconv.FormatUint":
+						vals = append(vals, stripConvInt(c.Call.Args[0]))
+					}
+				}
+			}
+			sites = append(sites, fmtSite{bo, vals})
+		}
+	}
+	for _, site := range sites {
+		sc, vals := site.at, site.vals
 		if len(vals) != 3 {
 			r.Viol(rule, fnName(f)+"/content-range:three-numbers", p.Pos(sc.Pos()), "the Content-Range format is not fed three integers")
 			continue
